@@ -222,6 +222,34 @@ pub fn run_c01(rep: &mut StageReport, tier: &str, _seed: u64) {
             }
         }
     }
+    // a pipelining publisher and a half-closed subscriber
+    {
+        rep.evaluations += 1;
+        match gen_certs() {
+            Err(e) => rep.inconclusive(&format!("certs: {e}")),
+            Ok(certs) => {
+                let r = rt.block_on(async {
+                    let server = start_server(&certs).map_err(|e| e.to_string())?;
+                    let r = tokio::time::timeout(Duration::from_secs(120), super::wirepeers::c01_pipelined_and_half_closed(server.addr, &certs, 1)).await.map_err(|_| "watchdog: pipelined-publisher scenario did not finish in 120 s".to_string())?;
+                    server.stop();
+                    r
+                });
+                match r {
+                    Ok((n, findings)) => {
+                        rep.count("l3_deliveries_from_a_pipelining_publisher", n);
+                        if findings.is_empty() {
+                            rep.distinct.insert(0xC01_D000);
+                        }
+                        for (sig, detail) in findings {
+                            let replay = write_replay("C01", &format!("l3-{}", sig.replace('/', "_")), 0, json!({"property": "C01", "detail": detail}));
+                            rep.violation(Violation { signature: format!("C01/l3/{}", sig), detail, replay });
+                        }
+                    }
+                    Err(e) => rep.inconclusive(&e),
+                }
+            }
+        }
+    }
     // frames at the size limit from an independent implementation of the wire format
     for i in 0..(if tier == "thorough" { 4 } else { 1 }) {
         rep.evaluations += 1;
